@@ -112,8 +112,17 @@ def unknown_cc_responses(base, rec, rng):
     good = TR.run(base.t, base.d, strict=True, cc=base.cc, enc=base.enc)
     if good.outcome[0] != "ok":
         return
-    for cc in rng.sample([c for c in (0x123, 0x0, 0xFFFFFFFF, 0x11E, 0x1FF, 0x20000123, 0x7FFFFFFF) if c not in known], 2):
-        t = TR.run(base.t, base.d, strict=True, cc=cc, enc=base.enc)
+    # the command code may be given as a TPM_CC value or as a plain number (what a transport layer has): same decode
+    as_int = TR.run(base.t, base.d, strict=True, enc=base.enc, marshal_kwargs=dict(command_code=int(base.cc)))
+    rec.count("command_code_given_as_int")
+    if [(e.kind, e.path, e.tname, e.value) for e in as_int.events] != [(e.kind, e.path, e.tname, e.value) for e in good.events] or as_int.outcome[0] != "ok":
+        rec.violation("unknown-cc-response", "code-as-int", f"{base.short()}\ndecoded with command_code={int(base.cc):#x} given as a plain int: {len(as_int.events)} events / {as_int.outcome[0]}, given as TPM_CC: {len(good.events)} events / ok",
+                      dict(base.replay(), family="unknown-cc-response", real_cc=base.cc))
+    for k, cc in enumerate(rng.sample([c for c in (0x123, 0x0, 0xFFFFFFFF, 0x11E, 0x1FF, 0x20000123, 0x7FFFFFFF) if c not in known], 2)):
+        if k == 0:
+            t = TR.run(base.t, base.d, strict=True, cc=cc, enc=base.enc)
+        else:
+            t = TR.run(base.t, base.d, strict=True, enc=base.enc, marshal_kwargs=dict(command_code=cc))  # plain number
         rec.count("unknown_cc_responses")
         rec.case(("unknown-cc-response", base.sig, cc), nontrivial=True)
         rep = dict(base.replay(), cc=cc, family="unknown-cc-response", real_cc=base.cc)
